@@ -108,7 +108,10 @@ def _group_scan(ctx, R, chk):
       ctx.check(R, t in (f'len({G}) <= 1', f'len({G}) < 2', f'len({G}) == 1', f'not {G}[1:]'), n, chk, n.test, 'only groups with a single entry may be skipped')
   for n in common.walk_no_nested(inner):
     if isinstance(n, (ast.Continue, ast.Break)):
-      ctx.check(R, False, n, chk, n, 'a sharer is skipped inside the comparison loop')
+      # leaving the iteration is fine once the pair was found compatible (`if compatible(...): continue` before the raise)
+      conds = common.conditions_at(inner, n) or []
+      compared = isinstance(n, ast.Continue) and any(pol and any(isinstance(c, ast.Call) and common.call_name(c).endswith('_compatible_tensor_transformation_params') for c in ast.walk(t)) for t, pol in conds)
+      ctx.check(R, compared, n, chk, n, 'a sharer is skipped inside the comparison loop')
   calls = [c for c in common.calls_in(chk.node) if common.call_name(c).endswith('_compatible_tensor_transformation_params')]
   if not ctx.check(R, len(calls) == 1 and calls[0] in list(ast.walk(inner)), chk.node, chk, 'compatibility call', 'the compatibility predicate must decide for every later sharer'):
     return
@@ -195,7 +198,10 @@ def r2_coverage(ctx):
     if len(pl) == 1:
       ap = {n.id for n in gp.nodes for c in n.calls() if isinstance(c.func, ast.Attribute) and c.func.attr == 'append'}
       guards = [n for n in gp.loop_body_nodes(pl[0].id) if gp.nodes[n].kind == 'if']
-      ok = len(guards) == 1 and defuse.norm(gp.nodes[guards[0]].ast.test).replace(' ', '') in (f'{pl[0].ast.target.id}!=-1', f'{pl[0].ast.target.id}>=0')
+      tgt_ = pl[0].ast.target.id
+      gt_ = gp.nodes[guards[0]].ast if len(guards) == 1 else None
+      as_guard = gt_ is not None and len(gt_.body) == 1 and isinstance(gt_.body[0], ast.Continue) and not gt_.orelse
+      ok = gt_ is not None and defuse.norm(gt_.test).replace(' ', '') in ((f'{tgt_}==-1', f'{tgt_}<0') if as_guard else (f'{tgt_}!=-1', f'{tgt_}>=0'))
       ctx.check(R, ok and gp.iteration_count(pl[0].id, ap)[1] == 1, pot.node, pot, 'parse_op_tensors', 'parse_op_tensors may only skip the absent operand -1')
   # the generator stores the map once at construction
   init = ctx.repo.func(f'{PG}.__init__')
